@@ -71,12 +71,23 @@ claims.update({
    ref="DESIGN.md section 4.C08"),
  "C16": dict(
    text="Proof of the connection state machine pieces: connStateUpdate (Disconnected absorbing, callback exactly when the state changed, with the new state and Err()), SetErrorOnce (first error wins), Connect reports Active exactly once and only on an accepting CONNACK, the reader goroutine's exit sequence serve -> Close -> store error unless Disconnected -> Closed -> close(Done), Disconnect sets Disconnected before writing DISCONNECT, Done() returns connClosed which only the reader goroutine closes.",
-   note="Lock-guarded fields are modelled as arbitrary at each acquisition (values 'at lock time' via guardVal). Not yet under contract: the keep-alive goroutine of the reconnecting client (own-client error, D5). The relative order of Active and Closed when CONNACK and connection end race is not decided.",
+   note="Lock-guarded fields are modelled as arbitrary at each acquisition (values 'at lock time' via guardVal). The keep-alive goroutine of the reconnecting client is under contract (own-client error; defect D5 found there and fixed). The relative order of Active and Closed when CONNACK and connection end race is not decided.",
    ref="DESIGN.md section 4.C16"),
  "C18": dict(
    text="Proof that every request issued by a task closure (first transmissions and, after the fix, retransmissions) uses a context produced by requestContext from the task context, that a failing request is reported through onError, queued with its retry handle and marks the connection for closing (newRetryByError), and that requestContext wraps WithTimeout(ctx, ResponseTimeout) when a timeout is configured.",
    note="Not yet under contract: the task loop closing the client when newRetryByError is set, (*requestContext).Err returning RequestTimeoutError. Real time is not modelled.",
    ref="DESIGN.md section 4.C18"),
+})
+
+claims.update({
+ "C09": dict(
+   text="Proof of per-iteration contracts of the reconnect loop for every outcome of dial / CONNECT / connection end: exactly one dial per pass; the wait before the next dial is time.After(w) with w = base after a success and w = the carried back-off otherwise, and the carried back-off becomes min(2w, max) (inductive invariant: it never drops below min(base, max)); at most one CONNECT per dialled client, with the caller's client id and option slice, after SetClient of that client; whenever a client was dialled its transport is closed and its Done() channel has been received from before the wait starts (one live transport); the loop returns only through a select that chose ctx.Done(), the disconnected channel or a connection end with Err()==nil, every continue/stop decision is a select that also watches ctx.Done() and the disconnected channel, and c.done is closed on exit. Disconnect closes the disconnected channel first, disconnects the retry client and returns only through a select on the loop's done channel or its context.",
+   note="'Never dials again after Disconnect' and 'Disconnect returns' as whole-history / liveness statements are not decided: Go's select may pick the expired timer when the stop request is ready at the same instant, and termination needs Dialer/Transport calls to return. Observation (not part of C09): a dial that completes after Disconnect leaves its connection open when the loop exits. Trusted: Connect and Disconnect are called once per reconnectClient; sync.Once runs its function at most once; Dialer returns a client with a transport on success; durations are below 2^62 ns and non-negative (precondition).",
+   ref="DESIGN.md section 4.C09"),
+ "C13": dict(
+   text="Proof for KeepAlive with a loop contract: every iteration is tick receive -> WithTimeout(ctx, timeout) -> one Ping with that context, and continues only if Ping returned nil; it returns only after a failing Ping, and classifies: parent context done (checked first) -> wraps ctx.Err(), never ErrPingTimeout; else ping context done -> wraps ErrPingTimeout; else the ping error itself. Reconnect side: the loop starts exactly one keep-alive goroutine per successful connection iff PingInterval>0, bound to that connection's client, interval and timeout; on a keep-alive error the goroutine records the error on and closes its own connection; the loop re-dials after the connection ended with a non-nil Err().",
+   note="Real time is not modelled ('every interval', 'within the timeout' are the ticker's and context's contracts). (*BaseClient).Ping's wait set is verified under C11. Trusted: context/timer semantics, Client.Ping returns.",
+   ref="DESIGN.md section 4.C13"),
 })
 
 checks = []
